@@ -26,6 +26,7 @@ type Run struct {
 	rng *rand.Rand
 
 	mu         sync.Mutex
+	held       *[]Violation // non-nil while a scenario's first attempt is held back (Hold / Release)
 	casesF     *os.File
 	cases      *bufio.Writer
 	nCases     int
@@ -202,6 +203,11 @@ func (r *Run) Violate(scenario, kind, detail string, input, observed, expected a
 		r.dist["monitor-violations-ignored(see the property's own check)"]++
 		return
 	}
+	if r.held != nil {
+		// a first attempt of a scenario that is confirmed by a second run before it counts (Hold / Release)
+		*r.held = append(*r.held, Violation{Scenario: scenario, Kind: kind, Detail: detail, Input: input, Observed: observed, Expected: expected})
+		return
+	}
 	if len(r.violations) >= 20 {
 		return
 	}
@@ -214,6 +220,27 @@ func (r *Run) Violate(scenario, kind, detail string, input, observed, expected a
 	}, "", " ")
 	os.WriteFile(path, b, 0o644)
 	r.violations = append(r.violations, v)
+}
+
+// Hold makes Violate collect into a side list instead of reporting; Release ends that and returns what
+// was collected. Used by scenarios over real network transports whose first failure is confirmed by a
+// second, fresh run before it is reported (a genuine defect fails again; a one-in-a-hundred hiccup of
+// the loopback stack does not).
+func (r *Run) Hold() {
+	r.mu.Lock()
+	r.held = &[]Violation{}
+	r.mu.Unlock()
+}
+
+func (r *Run) Release() []Violation {
+	r.mu.Lock()
+	defer r.mu.Unlock()
+	var out []Violation
+	if r.held != nil {
+		out = *r.held
+	}
+	r.held = nil
+	return out
 }
 
 func (r *Run) NumViolations() int {
